@@ -5,7 +5,7 @@
    blank lines, CRLF endings and a missing final newline anywhere.  The
    rejection direction (a bad line fails the whole call) is decided by the
    three-way correspondence on every run. *)
-From SJ Require Import Model.Base Model.RefTables Spec.Json Model.Driver Model.Tape Model.Stage1 Proofs.NdProofs Tie.GoTablesTie Tie.Stage1AsmTie.
+From SJ Require Import Model.Base Model.RefTables Spec.Json Model.Driver Model.Tape Model.Stage1 Proofs.NdProofs Proofs.NdRejectFinal Tie.GoTablesTie Tie.Stage1AsmTie.
 Open Scope N_scope.
 
 Definition C08_full : Prop :=
@@ -18,6 +18,23 @@ Definition C08_reject_full : Prop :=
 Theorem C08_parsend_accepts_exactly_the_lines : C08_full.
 Proof. exact parsend_accepts_valid. Qed.
 
+(* PROVED on the model: the rejection direction, for every byte string (no size
+   bound): an input with a line that is not a valid document (a bad line, two
+   documents on a line, a document spanning lines), or without any document,
+   returns an error -- not a result, not a panic, not a run-away. *)
+Theorem C08_parsend_rejects_everything_else : C08_reject_full.
+Proof. exact parsend_rejects_invalid. Qed.
+
+(* the two directions together: outside the stated exclusions (nd_spec = SOut)
+   exactly one of the two happens *)
+Definition C08_iff_full : Prop :=
+  forall copy bs, N.of_nat (length bs) < 2 ^ 55 -> nd_spec bs <> SOut ->
+    (exists ds p, nd_spec bs = SOk ds /\ parsend_model copy bs = Ok p /\
+                  denote (p_msg p) (p_strings p) (p_tape p) = Some ds) \/
+    (nd_spec bs = SInvalid /\ parsend_model copy bs = Err).
+Theorem C08_parsend_equals_parsing_each_line : C08_iff_full.
+Proof. exact parsend_characterisation. Qed.
+
 (* the scalar stage-1 step marks an unquoted LF as structural exactly in
    NDJSON mode *)
 Theorem C08_newline_is_structural : forall st,
@@ -28,3 +45,15 @@ Proof. intros [a b c d] H1 H2; simpl in *; subst; destruct c; split; reflexivity
 Theorem C08_tie_markup : tab_diff gen.Tables.gen_jsonMarkupTable jsonMarkup_ref 256 = [].
 Proof. exact tie_jsonMarkup. Qed.
 Print Assumptions C08_parsend_accepts_exactly_the_lines.
+Print Assumptions C08_parsend_rejects_everything_else.
+Print Assumptions C08_parsend_equals_parsing_each_line.
+
+(* the shapes the property names, as theorems (each: nd_spec = SInvalid and the
+   modelled ParseND returns Err) *)
+Definition C08_bad_line := parsend_bad_line.
+Definition C08_two_documents_on_a_line := parsend_two_docs_on_a_line.
+Definition C08_document_spanning_lines := parsend_document_spanning_lines.
+(* layout: blank lines, CRLF endings and a missing final newline do not change the result *)
+Definition C08_blank_line_invariant := parsend_blank_line.
+Definition C08_crlf_invariant := parsend_crlf.
+Definition C08_final_newline_invariant := parsend_final_newline.
